@@ -1,7 +1,7 @@
 (* Properties_C02.v — property C02 (control planners' solutions replay through the propagator to the goal).
    Statements only. *)
 From Coq Require Import List ZArith Bool Arith.
-From OmplV Require Import ControlModel ControlProofs.
+From OmplV Require Import ControlModel ControlProofs RrtModel RrtProofs.
 Import ListNotations.
 
 (* propagateWhileValid (single-result overload): r <= steps steps were performed, the result is the state after exactly
@@ -34,6 +34,27 @@ Theorem C02_directed_sampler_result_replays : forall (St C : Type) (stepf : C ->
   st = iter St C stepf c n s /\ (forall k, 1 <= k <= n -> valid (iter St C stepf c k s) = true) /\
   (forall cn, In cn (first :: rest) -> (dist st <= dist (snd (pwv St C stepf valid s (fst cn) (snd cn))))%Z).
 Proof. exact best_control_spec. Qed.
+(* control::RRT as a whole (RrtModel.crrt_solve: the RRT loop shared with the geometric planner, extension through the directed
+   control sampler above, minimum control duration, goal test, exact / approximate bookkeeping, path extraction), for every
+   propagator, validity predicate, goal, and every stream of targets and candidate controls: every motion of the tree — hence
+   every segment of a reported path — replays: its control applied for its recorded number of steps (at least the minimum
+   duration) from the parent state reproduces the child state and every propagation step lands on a valid state; the path
+   starts at a start state; an exact report ends in a state the goal accepts *)
+Theorem C02_control_rrt_paths_replay :
+  forall (St C : Type) (stepf : C -> St -> St) (valid : St -> bool) dist sat gdist (dflt : St) minDur starts ins, starts <> [] ->
+  let tree := fst (crrt_solve St C stepf valid dist sat gdist dflt minDur starts ins) in
+  TInv St (C * nat) (cEdge St C stepf valid minDur) (length starts) starts tree /\
+  match snd (crrt_solve St C stepf valid dist sat gdist dflt minDur starts ins) with
+  | Some (path, approx, dd) =>
+      path <> [] /\ (exists s0, hd (None, dflt) path = (None, s0) /\ In s0 starts) /\
+      pathOk St (C * nat) (cEdge St C stepf valid minDur) path /\ dd = gdist (snd (last path (None, dflt))) /\
+      (exists i, (length starts <= i < length tree)%nat /\ snd (last path (None, dflt)) = state_at St (C * nat) dflt tree i) /\
+      (if approx then sat (snd (last path (None, dflt))) = false /\
+                      forall j, (length starts <= j < length tree)%nat -> (gdist (state_at St (C * nat) dflt tree j) <? dd)%Z = false
+       else sat (snd (last path (None, dflt))) = true)
+  | None => tree = map (fun x => (x, None)) starts
+  end.
+Proof. exact crrt_solve_spec. Qed.
 (* meaning of the admission rule applied to every observed run *)
 Theorem C02_admission_sound : forall r, cadjudicate r = CVok ->
   (c_is_solution (cr_status r) = true -> C02_solution r) /\ (c_is_solution (cr_status r) = false -> cr_paths_after r = cr_paths_before r).
@@ -43,6 +64,7 @@ Print Assumptions C02_propagateWhileValid_spec.
 Print Assumptions C02_propagateWhileValid_states_spec.
 Print Assumptions C02_tree_paths_replay.
 Print Assumptions C02_directed_sampler_result_replays.
+Print Assumptions C02_control_rrt_paths_replay.
 Print Assumptions C02_admission_sound.
 
 Example C02_nonvacuous :
